@@ -71,6 +71,8 @@ structure GenSt where
   issues : List String := []                       -- constructs known not to compile (C01 classes)
   refCache : List (String × String) := []          -- schemaTypesByRef: $ref ↦ definition name
   derefDefs : List String := []                    -- definitions whose node has Dereferenced = true
+  hidden : List String := []                       -- declared names that were deleted from declsByName again
+  usedPkgs : List String := []                     -- packages the emitted type expressions mention
 deriving Inhabited
 
 abbrev GenM := StateT GenSt (Except GenErr)
@@ -84,11 +86,14 @@ def issue (w : String) : GenM Unit := modify fun st => if st.issues.contains w t
 def declNames (st : GenSt) : List String :=
   st.decls.filterMap fun d => match d.body with | .alias _ => none | _ => some d.name
 
+/-- names whose `declsByName` entry has its Type set -/
+def visibleNames (st : GenSt) : List String := (declNames st).filter (fun n => !st.hidden.contains n)
+
 /-- keys of `declsByName` -/
-def byNameKeys (st : GenSt) : List String := declNames st ++ st.inProgress.map (·.1)
+def byNameKeys (st : GenSt) : List String := visibleNames st ++ st.inProgress.map (·.1)
 
 /-- `output.isUniqueTypeName` -/
-def isUniqueTypeName (st : GenSt) (name : String) : Bool := !(declNames st).contains name
+def isUniqueTypeName (st : GenSt) (name : String) : Bool := !(visibleNames st).contains name
 
 def probeName (keys : List String) (name : String) : Nat → Nat → String
   | 0, k => s!"{name}_{k}"
@@ -320,7 +325,7 @@ def primitiveType (cfg : Config) (jsType format : String) (pointer : Bool) (n : 
       -- the caller's `cg.(codegen.NamedType)` test fails once the type is wrapped in a pointer:
       -- the imports are only added for the non-pointer form
       if !pointer then (for p in imps do addImport p)
-      else if !imps.isEmpty then issue "format-pointer-import"
+      modify fun st => { st with usedPkgs := st.usedPkgs ++ imps }
       pure { ty := w t }
   | "number" => pure { ty := w .float64 }
   | "integer" =>
@@ -451,13 +456,22 @@ mutual
                                  byDef := (match defKey with | some dk => (dk, name) :: st.byDef | none => st.byDef) }
       let r ← generateType cfg doc f t scope
       if isNamedType r.ty then
+        -- `delete(declsByName, decl.Name)` also removes a finished declaration of the same name
         modify fun st => { st with inProgress := st.inProgress.filter (·.1 ≠ name),
+                                   hidden := if (declNames st).contains name then name :: st.hidden else st.hidden,
                                    byDef := (match defKey with | some dk => st.byDef.filter (·.1 ≠ dk) | none => st.byDef) }
         return r.ty
       let tEff : Schema := match r.bounds with | some b => withBounds t b | none => t
       let finish (body : DeclBody) : GenM GoTy := do
-        modify fun st => { st with inProgress := st.inProgress.filter (·.1 ≠ name),
-                                   decls := st.decls ++ [{ name, ty := r.ty, comment := t.node.description, body, schema := tEff }] }
+        let st ← get
+        if (declNames st).contains name then
+          -- the name was deleted from declsByName while its declaration stayed in the package (K21):
+          -- AddDecl drops the deeply-equal TypeDecl, but the methods are closures and are added again
+          set ({ st with inProgress := st.inProgress.filter (·.1 ≠ name), hidden := st.hidden.filter (· ≠ name) } : GenSt)
+          if (match body with | .plain _ m => m | _ => false) then issue "duplicate-method"
+        else
+          set ({ st with inProgress := st.inProgress.filter (·.1 ≠ name),
+                         decls := st.decls ++ [{ name, ty := r.ty, comment := t.node.description, body, schema := tEff }] } : GenSt)
         pure (.named name)
       if cfg.onlyModels then return ← finish (.plain [] false)
       match r.ty, r.smeta with
@@ -471,7 +485,10 @@ mutual
         let mut hasAddl := false
         for fm in m.fields do
           if fm.name == "AdditionalProperties" then hasAddl := true
-          if let some dv := fm.dflt then vs := vs ++ [Validator.dflt fm.name fm.jsonName dv]
+          if let some dv := fm.dflt then
+            vs := vs ++ [Validator.dflt fm.name fm.jsonName dv]
+            -- ill-typed default literals do not compile (K4)
+            if !(literalOK (← get).decls 32 fm.ty dv) then issue "default-literal"
           let fvs ← structFieldValidators fm.name fm.sch.node 16 fm.ty false
           vs := vs ++ fvs
         if t.node.subElem || !vs.isEmpty then
@@ -484,6 +501,8 @@ mutual
         return ← finish (.plain vs false)
       | .int _, _ | .float64, _ | .string, _ | .bool, _ =>
         let vs ← structFieldValidators "" tEff.node 16 r.ty false
+        -- `math.Mod(plain, m)` with `plain` of the named shadow type does not type-check (K19)
+        if (match r.ty with | .float64 => true | _ => false) && tEff.node.multipleOf.isSome then issue "mod-named-type"
         if t.node.subElem || !vs.isEmpty then
           unmarshalerImports cfg vs
           return ← finish (.plain vs true)
@@ -689,6 +708,9 @@ mutual
     | 0, _, _ => throw .fuel
     | f + 1, anyOf, scope => do
       if anyOf.isEmpty then throw .emptyAnyOf
+      -- with --min-sized-ints the branch types are generated first and clear bounds in nodes the merged
+      -- type shares by pointer; the model has no node identity for that
+      if cfg.minSizedInts then throw (.unsupported "min-sized-ints-with-anyOf")
       let rs ← resolveRefs cfg doc f anyOf
       anyOfBranches cfg doc f rs scope 0
       let merged ← (match mergeTypes (rs.map (·.1)) with | .ok m => pure m | .error e => throw e)
@@ -788,7 +810,10 @@ def generateRootType (cfg : Config) (doc : SchemaDoc) : GenM Unit := do
 def Gen.run (cfg : Config) (doc : SchemaDoc) : Except GenErr Output :=
   match (generateRootType cfg doc).run {} with
   | .error e => .error e
-  | .ok (_, st) => .ok { fileName := cfg.outputName, pkg := cfg.pkg, imports := st.imports, decls := st.decls,
-                         warnings := st.warnings ++ st.issues.map (fun i => "ISSUE " ++ i) }
+  | .ok (_, st) =>
+    let missing := st.usedPkgs.filter (fun p => !st.imports.any (·.path == p))
+    let issues := st.issues ++ (if missing.isEmpty then [] else ["missing-import"])
+    .ok { fileName := cfg.outputName, pkg := cfg.pkg, imports := st.imports, decls := st.decls,
+          warnings := st.warnings ++ issues.map (fun i => "ISSUE " ++ i) }
 
 end GJS
